@@ -116,7 +116,7 @@ func init() {
 	props["C07"] = &propDef{level: "exploration", rule: "one case = 1-3 generated HTML documents (embedding attribute x quoting x reference form x nesting x decoy text) with settings of disable-html-tag / capture-alternate-pages / disable-assets-capture / max-hops, crawled end to end under one seeded schedule; planted requisites (resolved by net/url against the page URL) must appear in the origin log before the page's seed is finished, anchors must be handed to the queue; distinct/non-trivial as for C01", assumptions: append([]string{"completeness over documents is sampled by the generator; the simulator contributes the end-to-end observation (extraction, feedback pass, normalisation, scope, fetch)"}, e2eAssumptions...), components: e2eComponents, quickRuns: 200, thorRuns: 8000,
 		gen: func(t *scen.Tape, i int, tier string) *scen.Scenario { return scen.GenHTML(t) }}
 	props["C11"] = crawlProp("exploration", crawlRule+"; at every stage boundary the item tree handed to the hook is re-checked for well-formedness with public getters, and at the finisher's decision 'complete' is compared with 'no node awaits fetching or post-processing'", 200, 8000, scen.CrawlOpts{Prop: "C11", MinSeeds: 1, MaxSeeds: 8, Faults: true, Hops: true, Adversarial: true})
-	props["C17"] = crawlProp("exploration", crawlRule+"; at idle and after stop the metrics (total URLs crawled, finished seeds, worker gauges, mean response time) are compared with ground truth counted from hook events", 200, 6000, scen.CrawlOpts{Prop: "C17", MinSeeds: 1, MaxSeeds: 8, Faults: true, Hops: true})
+	props["C17x"] = crawlProp("exploration", crawlRule+"; at idle and after stop the metrics (total URLs crawled, finished seeds, worker gauges, mean response time) are compared with ground truth counted from hook events", 200, 6000, scen.CrawlOpts{Prop: "C17", MinSeeds: 1, MaxSeeds: 8, Faults: true, Hops: true})
 	props["C08x"] = crawlProp("exploration", crawlRule+"; every seen-store check is judged against a reference model of completed records (stamped with scheduler steps)", 200, 6000, scen.CrawlOpts{Prop: "C08", MinSeeds: 2, MaxSeeds: 8, Faults: false, Hops: true, Adversarial: true})
 	props["C09x"] = crawlProp("exploration", crawlRule+"; every canonical URL that flows through a crawl is re-rendered under other map-iteration orders, re-normalised and shape-checked", 200, 6000, scen.CrawlOpts{Prop: "C09", MinSeeds: 2, MaxSeeds: 8, Hops: true, Adversarial: true})
 	props["C12"] = &propDef{level: "exploration", assumptions: compAssumptions, quickRuns: 32, thorRuns: 600,
@@ -202,5 +202,19 @@ func init() {
 		components:  e2eComponents,
 		rule:        "one case = 1-4 hostile documents (as seed or as asset of a page) next to 1-2 well-behaved bystander seeds, crawled end to end under one seeded schedule; distinct/non-trivial as for C01",
 		gen:         func(t *scen.Tape, i int, tier string) *scen.Scenario { return scen.GenHostile(t) }}
+	c17crawl := props["C17x"]
+	delete(props, "C17x")
+	props["C17"] = &propDef{level: "exploration", quickRuns: 120, thorRuns: 4000,
+		assumptions: append([]string{"component cases run a copy of /repo/internal/pkg/stats that vcheck re-generates on every invocation with a go/ast rewriter: a scheduling point before every statement, non-atomic read-modify-write on fields split into load / yield / store, sync.Mutex replaced by a simulator-aware mutex; this exposes lost updates and torn multi-step sequences at statement level, not hardware reordering or the atomicity of a single atomic instruction", "totals, gauges and means are compared after the burst (quiescent end state), as the statement says"}, e2eAssumptions...),
+		components:  map[string]string{"internal/pkg/stats": "component cases: statement-level instrumented copy generated from /repo; pipeline cases: the real package", "clients": "component cases: 2-6 simulated goroutines issuing incr / decr / add / read / reset; pipeline cases: the real stage workers"},
+		rule:        "component cases: one bubble = 2-6 concurrent clients x 2-8 operations each over {URLs crawled, seeds finished, worker gauges (balanced incr/decr), per-status counters, mean samples, reads, window resets}, every statement boundary a scheduling decision, end state compared with a sequential model; pipeline cases: as for C01 with metrics compared with hook-counted ground truth at idle and after stop; distinct = distinct event-log hash",
+		planFn: func(p *propDef, tier string, seed uint64, n int) []*Case {
+			cases := compCases("C17", "stats", max(2, n/10), 100, seed, nil)
+			for _, c := range c17crawl.plan(tier, seed, n) {
+				c.Idx = len(cases)
+				cases = append(cases, c)
+			}
+			return cases
+		}}
 	_ = fmt.Sprint
 }
